@@ -38,6 +38,9 @@ type waiter struct {
 
 func NewClock(unix int64) *Clock { return &Clock{now: time.Unix(unix, 0)} }
 
+// NewClockAt starts the clock at an instant with sub-second resolution.
+func NewClockAt(t time.Time) *Clock { return &Clock{now: t} }
+
 func (c *Clock) Now() time.Time {
 	c.mu.Lock()
 	defer c.mu.Unlock()
